@@ -27,12 +27,27 @@
    has no zero inside), i.e. the least-squares problem of every block has full rank.  Draws that fail are skipped. *)
 EXTENDS Integers, Sequences, FiniteSets, TLC, Json, LsqRand
 
+(* Extension round (layouts, grids, options).  An instance now also has
+     layout 0  one bead type, one pair interaction A-A                                  (as before)
+     layout 1  two bead types (chain pattern A A B A A B ..), pair interactions A-A and A-B, none for B-B:
+               two splines side by side in the least-squares matrix (column offsets matr_pos)
+     layout 2  two-bead molecules with a bond (interaction bond1, excluded from the pair list) + pair interaction A-A;
+               the bond force acts along the pair direction, d|r|/dr_i = (r_i - r_j)/r, so the generator needs no
+               gradient code of its own
+     gden      the spline grid lives on k/gden nm, gden = 8 (dyadic) or 10 (decimal steps 0.1 nm: grid generation and
+               output loop accumulate round-off); positions stay on 1/8 nm, all comparisons cross-multiplied
+     osub      out_step = step / osub (osub = 2: the table is written on a finer grid than the spline grid)
+     tf        an extra run "tf": trajectory with forces F + known and --trj-force <known forces>; relation
+               T(tf) = T(full)   (the program subtracts the forces of the second trajectory frame by frame)
+   The well-posedness argument is per interaction class: (ii) makes every active pair's G_class(r) vanish when all net
+   forces vanish, (iii) is demanded for every class separately.                                                      *)
 CONSTANTS Seed0, NSeeds, Emit
 VARIABLES ph, inst
 vars == <<ph, inst>>
 
-Origin == <<20, 20, 20>>
+Origin == <<24, 24, 24>>
 BoxL   == 64                \* box edge in lattice units (80 Angstrom)
+PosDen == 8                 \* positions in 1/8 nm
 
 (* ------------------------------ lattice geometry -------------------------------- *)
 Sub(p, q)  == <<p[1] - q[1], p[2] - q[2], p[3] - q[3]>>
@@ -41,11 +56,18 @@ N2(v)      == v[1] * v[1] + v[2] * v[2] + v[3] * v[3]
 Cross(u, v) == <<u[2] * v[3] - u[3] * v[2], u[3] * v[1] - u[1] * v[3], u[1] * v[2] - u[2] * v[1]>>
 Det3(u, v, w) == u[1] * (v[2] * w[3] - v[3] * w[2]) - u[2] * (v[1] * w[3] - v[3] * w[1]) + u[3] * (v[1] * w[2] - v[2] * w[1])
 
-Knot(g, k) == g.gmin + (k - 1) * g.gstep
-Cut2(g)    == Knot(g, g.n) * Knot(g, g.n)
+\* knot k in units 1/gden nm;  d = sqrt(d2)/8 nm  compared with a knot value kn/gden nm without roots or fractions
+Knot(g, k)      == g.gmin + (k - 1) * g.gstep
+GMax(g)         == Knot(g, g.n)
+DistGE(g, d2, kn) == g.gden * g.gden * d2 >= PosDen * PosDen * kn * kn
+DistLT(g, d2, kn) == g.gden * g.gden * d2 <  PosDen * PosDen * kn * kn
+DistEQ(g, d2, kn) == g.gden * g.gden * d2 =  PosDen * PosDen * kn * kn
+InIv(g, d2, lo, hi) == DistGE(g, d2, lo) /\ DistLT(g, d2, hi)
 
-\* base vectors a >= b >= c >= 0 with squared length in [lo^2, hi^2), as a sequence in a fixed order
-BaseSet(lo, hi) == {v \in (0..hi) \X (0..hi) \X (0..hi) : v[1] >= v[2] /\ v[2] >= v[3] /\ N2(v) >= lo * lo /\ N2(v) < hi * hi}
+\* base vectors a >= b >= c >= 0 with length in [lo, hi) (knot units), as a sequence in a fixed order
+VMax(g, hi) == (PosDen * hi) \div g.gden + 1
+BaseSet(g, lo, hi) == {v \in (0..VMax(g, hi)) \X (0..VMax(g, hi)) \X (0..VMax(g, hi)) :
+                          v[1] >= v[2] /\ v[2] >= v[3] /\ InIv(g, N2(v), lo, hi)}
 RECURSIVE SeqOfVecs(_)
 SeqOfVecs(S) == IF S = {} THEN <<>>
                 ELSE LET m == CHOOSE a \in S : \A c \in S : a[1] * 100 + a[2] * 10 + a[3] <= c[1] * 100 + c[2] * 10 + c[3]
@@ -56,26 +78,44 @@ Oriented(v, pi, sg) == LET q == Perms[pi]
                              (IF (sg \div 2) % 2 = 1 THEN -1 ELSE 1) * v[q[2]],
                              (IF (sg \div 4) % 2 = 1 THEN -1 ELSE 1) * v[q[3]] >>
 
+(* ------------------------------ beads, types, interaction classes ---------------- *)
+NA(g) == g.nb - (g.nb \div 3)                       \* layout 1: number of A beads (chain pattern A A B)
+\* bead id of chain position c (layout 1 numbers all A beads first, as the topology file lists them)
+BeadOfChain(g, c) == IF g.layout = 1 THEN (IF c % 3 = 0 THEN NA(g) + (c \div 3) ELSE c - (c \div 3)) ELSE c
+ChainOfBead(g, id) == CHOOSE c \in 1..g.nb : BeadOfChain(g, c) = id
+TypeOf(g, id) == IF g.layout = 1 /\ id > NA(g) THEN "B" ELSE "A"
+NInter(g) == IF g.layout = 0 THEN 1 ELSE 2
+\* interaction class of the pair i < j: 0 = none
+Cls(g, i, j) == CASE g.layout = 0 -> 1
+                  [] g.layout = 1 -> IF TypeOf(g, i) = "A" /\ TypeOf(g, j) = "A" THEN 1
+                                     ELSE IF TypeOf(g, i) # TypeOf(g, j) THEN 2 ELSE 0
+                  [] g.layout = 2 -> IF (i + 1) \div 2 = (j + 1) \div 2 THEN 1 ELSE 2
+IsBond(g, c) == g.layout = 2 /\ c = 1
+InterName(g, c) == IF IsBond(g, c) THEN "bond1" ELSE IF g.layout = 1 /\ c = 2 THEN "A-B" ELSE "A-A"
+\* a pair that contributes to the forces: a bond always, a non-bonded pair inside the cut-off (= last knot)
+Active(g, pos, i, j) == LET lo == IF i < j THEN i ELSE j  hi == IF i < j THEN j ELSE i  c == Cls(g, lo, hi)
+                        IN i # j /\ c > 0 /\ (IsBond(g, c) \/ DistLT(g, N2(Sub(pos[i], pos[j])), GMax(g)))
+
 (* ------------------------------ building an instance ---------------------------- *)
-DrawsPerFrame == 40
-\* a chain: bead i+1 = bead i + a vector whose length lies in spline interval ((i + f) mod (n-1))
+DrawsPerFrame == 76
+\* a chain: position c+1 = position c + a vector whose length lies in spline interval ((c + f) mod (n-1))
 RECURSIVE Chain(_, _, _, _, _, _)
 Chain(R, k0, g, f, i, acc) ==
   IF i >= g.nb THEN acc
   ELSE LET iv   == (i + f) % (g.n - 1)
-           base == SeqOfVecs(BaseSet(Knot(g, iv + 1), Knot(g, iv + 2)))
+           base == SeqOfVecs(BaseSet(g, Knot(g, iv + 1), Knot(g, iv + 2)))
            v    == Oriented(base[Draw(R, k0 + 3 * i, 1, Len(base))], Draw(R, k0 + 3 * i + 1, 1, 6), Draw(R, k0 + 3 * i + 2, 0, 7))
        IN Chain(R, k0, g, f, i + 1, Append(acc, Add3(acc[Len(acc)], v)))
 
-PairsOf(g, pos) == {pr \in (1..g.nb) \X (1..g.nb) : pr[1] < pr[2] /\ N2(Sub(pos[pr[1]], pos[pr[2]])) < Cut2(g)}
+ActivePairs(g, pos) == {pr \in (1..g.nb) \X (1..g.nb) : pr[1] < pr[2] /\ Active(g, pos, pr[1], pr[2])}
 RECURSIVE PairSeq(_, _, _, _)
 PairSeq(g, pos, i, j) == IF i >= g.nb THEN <<>>
                          ELSE IF j > g.nb THEN PairSeq(g, pos, i + 1, i + 2)
-                         ELSE (IF N2(Sub(pos[i], pos[j])) < Cut2(g) THEN << <<i, j, N2(Sub(pos[i], pos[j]))>> >> ELSE <<>>)
+                         ELSE (IF Active(g, pos, i, j) THEN << <<i, j, N2(Sub(pos[i], pos[j])), Cls(g, i, j)>> >> ELSE <<>>)
                               \o PairSeq(g, pos, i, j + 1)
 
-Nbrs(g, pos, i) == {j \in 1..g.nb : j # i /\ N2(Sub(pos[i], pos[j])) < Cut2(g)}
-\* the directions from bead i to its in-range neighbours are linearly independent
+Nbrs(g, pos, i) == {j \in 1..g.nb : Active(g, pos, i, j)}
+\* the directions from bead i to its active neighbours are linearly independent
 Independent(g, pos, i) ==
   LET nb == Nbrs(g, pos, i)
   IN \/ Cardinality(nb) <= 1
@@ -84,21 +124,25 @@ Independent(g, pos, i) ==
      \/ /\ Cardinality(nb) = 3
         /\ \E j, l, m \in nb : j < l /\ l < m /\ Det3(Sub(pos[j], pos[i]), Sub(pos[l], pos[i]), Sub(pos[m], pos[i])) # 0
 FrameOK(g, fr) ==
-  /\ \A i, j \in 1..g.nb : i < j => /\ N2(Sub(fr.pos[i], fr.pos[j])) >= Knot(g, 1) * Knot(g, 1)
-                                    /\ N2(Sub(fr.pos[i], fr.pos[j])) # Cut2(g)
-  /\ \A pr \in PairsOf(g, fr.pos) : Independent(g, fr.pos, pr[1]) \/ Independent(g, fr.pos, pr[2])
+  /\ \A pr \in ActivePairs(g, fr.pos) :
+        LET d2 == N2(Sub(fr.pos[pr[1]], fr.pos[pr[2]]))
+        IN /\ InIv(g, d2, Knot(g, 1), GMax(g))                     \* inside the spline grid (bonds too)
+           /\ Independent(g, fr.pos, pr[1]) \/ Independent(g, fr.pos, pr[2])
+  \* no non-bonded pair exactly at the cut-off (whether it counts would depend on rounding)
+  /\ \A i, j \in 1..g.nb : i < j /\ Cls(g, i, j) > 0 => ~DistEQ(g, N2(Sub(fr.pos[i], fr.pos[j])), GMax(g))
   \* the box never matters
   /\ \A i \in 1..g.nb : \A c \in 1..3 : fr.pos[i][c] \in 0..BoxL
   /\ \A i, j \in 1..g.nb : \A c \in 1..3 : 2 * (fr.pos[i][c] - fr.pos[j][c]) < BoxL /\ 2 * (fr.pos[j][c] - fr.pos[i][c]) < BoxL
 \* every frame has its own short streams (a single long one would recurse too deeply for TLC's stack): up to Tries
 \* candidate configurations, the first one that satisfies FrameOK is taken (the last one if none does: Guard rejects)
+Vec3(R, k, lo, hi) == <<Draw(R, k, lo, hi), Draw(R, k + 1, lo, hi), Draw(R, k + 2, lo, hi)>>
 Candidate(s, g, f, t) ==
-  LET k0  == 0
-      R   == StreamN((s * 16 + f) * 8 + t, DrawsPerFrame + 8)
-      pos == Chain(R, k0, g, f, 1, <<Origin>>)
+  LET R    == StreamN((s * 16 + f) * 8 + t, DrawsPerFrame + 4)
+      cpos == Chain(R, 0, g, f, 1, <<Origin>>)
+      pos  == [id \in 1..g.nb |-> cpos[ChainOfBead(g, id)]]
   IN [pos   |-> pos,
-      noise |-> [i \in 1..g.nb |-> IF g.noisy THEN <<Draw(R, k0 + 20 + 3 * i, -2, 2), Draw(R, k0 + 21 + 3 * i, -2, 2),
-                                                      Draw(R, k0 + 22 + 3 * i, -2, 2)>> ELSE <<0, 0, 0>>],
+      noise |-> [i \in 1..g.nb |-> IF g.noisy THEN Vec3(R, 24 + 3 * (i - 1), -2, 2) ELSE <<0, 0, 0>>],
+      known |-> [i \in 1..g.nb |-> IF g.tf THEN Vec3(R, 48 + 3 * (i - 1), -3, 3) ELSE <<0, 0, 0>>],
       pairs |-> PairSeq(g, pos, 1, 2)]
 Tries == 8
 RECURSIVE PickFrame(_, _, _, _)
@@ -109,31 +153,45 @@ Frame(s, g, f) == PickFrame(s, g, f, 0)
 RunId(k) == IF k = 0 THEN "full" ELSE "blk" \o ToString(k)
 
 Build(s) ==
-  LET R0 == StreamN(s, 20)
-      b   == Draw(R0, 1, 1, 3)
+  LET R0  == StreamN(s, 32)
+      l0  == Draw(R0, 10, 0, 9)
+      lay == IF l0 < 4 THEN 0 ELSE IF l0 < 7 THEN 1 ELSE 2
+      b   == IF lay = 0 THEN Draw(R0, 1, 1, 3) ELSE Draw(R0, 1, 2, 3)
       K   == Draw(R0, 2, 1, 3)
       rem == IF b > 1 THEN Draw(R0, 3, 0, 1) ELSE 0
       NF  == K * b + rem
-      g   == [gmin |-> Draw(R0, 4, 2, 3), gstep |-> 1, n |-> Draw(R0, 5, 4, 5), nb |-> Draw(R0, 6, 5, 6),
-              noisy |-> Draw(R0, 7, 0, 2) = 0]
-  IN [k |-> "fm", s |-> s, nb |-> g.nb, gmin |-> g.gmin, gstep |-> g.gstep, n |-> g.n, noisy |-> g.noisy,
-      y |-> [k \in 1..g.n |-> Draw(R0, 10 + k, -4, 8)],
+      gd  == IF Draw(R0, 9, 0, 2) = 0 THEN 10 ELSE 8
+      g   == [gden |-> gd, gmin |-> IF gd = 10 THEN Draw(R0, 4, 2, 4) ELSE Draw(R0, 4, 2, 3), gstep |-> 1,
+              n |-> IF lay = 0 THEN Draw(R0, 5, 4, 5) ELSE 4,
+              nb |-> IF lay = 0 THEN Draw(R0, 6, 5, 6) ELSE IF lay = 1 THEN Draw(R0, 6, 6, 8) ELSE 2 * Draw(R0, 6, 3, 4),
+              layout |-> lay, noisy |-> Draw(R0, 7, 0, 2) = 0, tf |-> Draw(R0, 11, 0, 2) = 0]
+      tf  == g.tf
+      blk == [r \in 1..(K + 1) |-> IF r = 1 THEN [id |-> RunId(0), first |-> 1, nframes |-> NF, tf |-> FALSE]
+                                   ELSE [id |-> RunId(r - 1), first |-> (r - 2) * b + 1, nframes |-> b, tf |-> FALSE]]
+  IN [k |-> "fm", s |-> s, layout |-> lay, nb |-> g.nb, types |-> [i \in 1..g.nb |-> TypeOf(g, i)],
+      gden |-> g.gden, gmin |-> g.gmin, gstep |-> g.gstep, n |-> g.n, osub |-> Draw(R0, 12, 1, 2),
+      noisy |-> g.noisy, tf |-> tf,
+      inter |-> [c \in 1..NInter(g) |-> [name |-> InterName(g, c), bond |-> IsBond(g, c),
+                                         y |-> [k \in 1..g.n |-> Draw(R0, 12 + 6 * (c - 1) + k, -4, 8)]]],
       b |-> b, K |-> K, rem |-> rem, con |-> Draw(R0, 8, 0, 1) = 1,
       frames |-> [f \in 1..NF |-> Frame(s, g, f)],
-      runs |-> [r \in 1..(K + 1) |-> IF r = 1 THEN [id |-> RunId(0), first |-> 1, nframes |-> NF]
-                                     ELSE [id |-> RunId(r - 1), first |-> (r - 2) * b + 1, nframes |-> b]],
-      rel  |-> [r \in 1..(K + 1) |-> IF r = 1 THEN <<K, RunId(0)>> ELSE <<-1, RunId(r - 1)>>]]
+      runs |-> IF tf THEN Append(blk, [id |-> "tf", first |-> 1, nframes |-> NF, tf |-> TRUE]) ELSE blk,
+      rels |-> << [c |-> "block-independence",
+                   t |-> [r \in 1..(K + 1) |-> IF r = 1 THEN <<K, RunId(0)>> ELSE <<-1, RunId(r - 1)>>]] >>
+               \o (IF tf THEN << [c |-> "trj-force", t |-> << <<1, "tf">>, <<-1, "full">> >>] >> ELSE <<>>)]
 
 (* ------------------------------ well-posedness ----------------------------------- *)
-Grid(q) == [gmin |-> q.gmin, gstep |-> q.gstep, n |-> q.n, nb |-> q.nb]
+Grid(q) == [gden |-> q.gden, gmin |-> q.gmin, gstep |-> q.gstep, n |-> q.n, nb |-> q.nb, layout |-> q.layout]
 BlockFrames(q, k) == ((k - 1) * q.b + 1)..(k * q.b)
-Sites(q, k) == UNION {{q.frames[f].pairs[e][3] : e \in 1..Len(q.frames[f].pairs)} : f \in BlockFrames(q, k)}
+\* squared distances of the active pairs of class c in block k
+Sites(q, k, c) == UNION {{q.frames[f].pairs[e][3] : e \in {e \in 1..Len(q.frames[f].pairs) : q.frames[f].pairs[e][4] = c}} :
+                         f \in BlockFrames(q, k)}
 BlockOK(q, k) ==
   LET g == Grid(q)
   IN /\ \A f \in BlockFrames(q, k) : FrameOK(g, q.frames[f])
      /\ q.n >= 4
-     /\ \A iv \in 1..(q.n - 1) :
-           Cardinality({d2 \in Sites(q, k) : d2 >= Knot(g, iv) * Knot(g, iv) /\ d2 < Knot(g, iv + 1) * Knot(g, iv + 1)}) >= 2
+     /\ \A c \in 1..NInter(g) : \A iv \in 1..(q.n - 1) :
+           Cardinality({d2 \in Sites(q, k, c) : InIv(g, d2, Knot(g, iv), Knot(g, iv + 1))}) >= 2
 Guard(q) == \A k \in 1..q.K : BlockOK(q, k)
 
 (* ------------------------------ model --------------------------------------------- *)
@@ -144,29 +202,39 @@ Spec == Init /\ [][Next]_vars
 
 IsInst == ph = 1 /\ inst.k = "fm"
 FramesOf(run) == run.first..(run.first + run.nframes - 1)
+RunIds == {inst.runs[r].id : r \in 1..Len(inst.runs)}
 
-\* what the relation means: the single-block runs see exactly the frames of their block, the blocks tile the frames the
-\* full run turns into complete blocks, the coefficients add up to zero (a constant table satisfies the relation)
-RelWindows == IsInst => /\ Len(inst.runs) = inst.K + 1 /\ Len(inst.frames) = inst.K * inst.b + inst.rem /\ inst.rem < inst.b
+\* what the relations mean: the single-block runs see exactly the frames of their block, the blocks tile the frames the
+\* full run turns into complete blocks; the trj-force run sees the same frames as the full run
+RelWindows == IsInst => /\ Len(inst.runs) = inst.K + 1 + (IF inst.tf THEN 1 ELSE 0)
+                        /\ Len(inst.frames) = inst.K * inst.b + inst.rem /\ inst.rem < inst.b
                         /\ FramesOf(inst.runs[1]) = 1..Len(inst.frames)
                         /\ \A k \in 1..inst.K : FramesOf(inst.runs[k + 1]) = BlockFrames(inst, k)
                         /\ UNION {BlockFrames(inst, k) : k \in 1..inst.K} = 1..(inst.K * inst.b)
                         /\ \A k, l \in 1..inst.K : k # l => BlockFrames(inst, k) \cap BlockFrames(inst, l) = {}
+                        /\ inst.tf => FramesOf(inst.runs[Len(inst.runs)]) = FramesOf(inst.runs[1])
 RECURSIVE SumCoef(_, _)
 SumCoef(rel, i) == IF i = 0 THEN 0 ELSE rel[i][1] + SumCoef(rel, i - 1)
-RelCoefs   == IsInst => /\ SumCoef(inst.rel, Len(inst.rel)) = 0
-                        /\ \A r \in 1..Len(inst.rel) : inst.rel[r][2] = inst.runs[r].id
-\* the pair lists handed to the generator are exactly the pairs inside the cut-off, with their squared distances
+\* every relation is satisfied by a run-independent table (coefficients add up to zero) and names existing runs
+RelCoefs   == IsInst => \A r \in 1..Len(inst.rels) :
+                           /\ SumCoef(inst.rels[r].t, Len(inst.rels[r].t)) = 0
+                           /\ \A e \in 1..Len(inst.rels[r].t) : inst.rels[r].t[e][2] \in RunIds
+\* the pair lists handed to the generator are exactly the active pairs, with their squared distances and classes
 PairLists  == IsInst => \A f \in 1..Len(inst.frames) :
                 LET fr == inst.frames[f]  g == Grid(inst)
-                IN /\ {<<fr.pairs[e][1], fr.pairs[e][2]>> : e \in 1..Len(fr.pairs)} = PairsOf(g, fr.pos)
-                   /\ \A e \in 1..Len(fr.pairs) : fr.pairs[e][3] = N2(Sub(fr.pos[fr.pairs[e][1]], fr.pos[fr.pairs[e][2]]))
-\* consecutive beads of the chain are neighbours in the intended interval (the construction does what it says)
-ChainOK    == IsInst => \A f \in 1..Len(inst.frames) : \A i \in 1..(inst.nb - 1) :
-                LET d2 == N2(Sub(inst.frames[f].pos[i], inst.frames[f].pos[i + 1]))
-                    iv == (i + f) % (inst.n - 1)
-                    g  == Grid(inst)
-                IN d2 >= Knot(g, iv + 1) * Knot(g, iv + 1) /\ d2 < Knot(g, iv + 2) * Knot(g, iv + 2)
+                IN /\ {<<fr.pairs[e][1], fr.pairs[e][2]>> : e \in 1..Len(fr.pairs)} = ActivePairs(g, fr.pos)
+                   /\ \A e \in 1..Len(fr.pairs) : /\ fr.pairs[e][3] = N2(Sub(fr.pos[fr.pairs[e][1]], fr.pos[fr.pairs[e][2]]))
+                                                  /\ fr.pairs[e][4] = Cls(g, fr.pairs[e][1], fr.pairs[e][2])
+                                                  /\ fr.pairs[e][4] \in 1..Len(inst.inter)
+\* consecutive chain positions are neighbours in the intended interval; bead numbering is a bijection; bonds join
+\* the two beads of one molecule
+ChainOK    == IsInst => LET g == Grid(inst) IN
+                /\ {BeadOfChain(g, c) : c \in 1..inst.nb} = 1..inst.nb
+                /\ \A f \in 1..Len(inst.frames) : \A c \in 1..(inst.nb - 1) :
+                      LET d2 == N2(Sub(inst.frames[f].pos[BeadOfChain(g, c)], inst.frames[f].pos[BeadOfChain(g, c + 1)]))
+                          iv == (c + f) % (inst.n - 1)
+                      IN InIv(g, d2, Knot(g, iv + 1), Knot(g, iv + 2))
+                /\ inst.layout = 2 => inst.nb % 2 = 0
 GuardHolds == IsInst => Guard(inst)
 EmitRec    == (Emit /\ IsInst) => PrintT(ToJson(inst))
 =============================================================================
